@@ -2,6 +2,7 @@ package openflow13
 
 import (
 	"encoding/binary"
+	"errors"
 
 	"github.com/contiv/libOpenflow/common"
 	log "github.com/sirupsen/logrus"
@@ -149,6 +150,9 @@ func (f *FlowMod) UnmarshalBinary(data []byte) error {
 
 	for n < int(f.Header.Length) {
 		instr := DecodeInstr(data[n:])
+		if instr.Len() == 0 {
+			return errors.New("an instruction in the flow-mod reports length 0")
+		}
 		f.Instructions = append(f.Instructions, instr)
 		n += int(instr.Len())
 	}
